@@ -136,7 +136,7 @@ walk:
 
 func init() {
 	checks["C21"] = eng.Check{
-		Rule: "code images of 1..2 blocks (at 0x1000 and 0x2000 / directly adjacent / 0x1000 and 2^64-16), each block every sequence of <=3 words from {addi, sw, beq, jal, lr.w(A only), 00000000, ffffffff} followed by 0..3 extra bytes (second block <=2 words in quick), in both input orders, rv64ima and rv32i: parser.Parse must fail iff the reference walk meets an undecodable or truncated word, else yield the exact tiling with the image bytes, the front end's text/type and effects of equal kinds/keys/widths that are equivalent to the front end's lifting under 8 pre-states. Non-trivial = image whose layout is valid (non-overlapping).",
+		Rule:        "code images of 1..2 blocks (at 0x1000 and 0x2000 / directly adjacent / 0x1000 and 2^64-16), each block every sequence of <=3 words from {addi, sw, beq, jal, lr.w(A only), 00000000, ffffffff} followed by 0..3 extra bytes (second block <=2 words in quick), in both input orders, rv64ima and rv32i: parser.Parse must fail iff the reference walk meets an undecodable or truncated word, else yield the exact tiling with the image bytes, the front end's text/type and effects of equal kinds/keys/widths that are equivalent to the front end's lifting under 8 pre-states. Non-trivial = image whose layout is valid (non-overlapping).",
 		Assumptions: []string{"blocks are non-empty and built through the real elf.newBlock/newMemory (hook)"},
 		Run: func(r *eng.Run) {
 			words := []uint32{0x00100093, 0x00112023, 0x00208463, 0xffdff06f, 0x1000a1af, 0x00000000, 0xffffffff}
